@@ -77,7 +77,6 @@ for _auto in (False, True):
     _route_contract(2, False, "si", _auto)
     _route_contract(2, True, "ss", _auto, tier="thorough")
     _route_contract(3, False, "sis", _auto, tier="thorough")
-    _route_contract(4, False, "siss", _auto, tier="thorough")
 
 # shortcut: host/slot with auto_slot -> backplane/slot
 contract(
@@ -123,3 +122,15 @@ contract(
     params={"host": P.str(**HOST), "tcp": P.oneof(P.const("'0'"), P.numeral(65536, 10**7), P.const("'http'"), P.const("''"),
                                                    P.const("'-5'"), P.const("'44818:1'"))},
     setup=["path = host + ':' + tcp + '/bp/1'"], ensures=["False"], raises_only=["pycomm3.exceptions.RequestError"], props=["C15"])
+
+# frame condition: every parse gives a route of its own -- a caller that edits the route it got (LogixDriver drops the last
+# hop for a Micro800) does not change what a later parse of the same text returns
+contract(
+    id="connpath.fresh_result", func="pycomm3.cip_driver.parse_connection_path", call="pycomm3.cip_driver.parse_connection_path(path, auto)",
+    bind={"case": ["('10.0.0.1/bp/2/enet/192.168.1.20/bp/0', True)", "('10.0.0.1/bp/2/enet/192.168.1.20/bp/0', False)",
+                   "('10.0.0.1', True)", "('10.0.0.1', False)", "('10.0.0.1/3', True)"]},
+    setup=["path = case[0]", "auto = case[1]", "first = pycomm3.cip_driver.parse_connection_path(path, auto)",
+           "expected = pycomm3.cip.data_types.PADDED_EPATH.encode(first[2], length=True, pad_length=True)",
+           "dropped = [first[2].pop() for _ in range(len(first[2]))]"],
+    ensures=["pycomm3.cip.data_types.PADDED_EPATH.encode(result[2], length=True, pad_length=True) == expected", "result[2] is not first[2]"],
+    raises_only=["pycomm3.exceptions.RequestError"], props=["C15"])
